@@ -25,9 +25,14 @@
     podgroup_info.GetTasksToAllocateInitResource) and the theorems say where the rank proof needs
     [gate_size j = charged_size j] (weaker: [charged_size j <= gate_size j]) and what happens without it.
 
+    Section 6: the saturation multiplier.  The documented test multiplies the RECLAIMER's saturation ratio; it is
+    monotone in m, so for every m >= 1 the gate is at least as strict as at m = 1 and every no-lasso statement at
+    m = 1 carries over; with the multiplier on the SIBLING's ratio (seeded change C15-4) m acts like 1/m.
+
     NOT PROVED: [C15_general] (gangs, several resources, deep hierarchies) - see the end. *)
 From Coq Require Import List ZArith QArith Bool.
 From KaiV Require Import Model.ClosedSystem Proofs.ClosedSystem Proofs.ClosedSystemOrder Proofs.ClosedSystemSize.
+From KaiV Require Import Model.ClosedSystemMult Proofs.ClosedSystemMult.
 Import ListNotations.
 Open Scope Z_scope.
 
@@ -315,6 +320,126 @@ Theorem C15_size_hypotheses_nonvacuous :
   /\ run_sized (fun _ => 6) (1, 1) uc_params uc_s0 [DReclaim 1 3]%positive = Some uc_s1.
 Proof. exact sized_nonvacuous. Qed.
 Print Assumptions C15_size_hypotheses_nonvacuous.
+
+(** 6. THE SATURATION MULTIPLIER ("saturation-multiplier settings varied").  reclaimable.isFairShareSaturationLowerPerResource
+    refuses when ratio(reclaimer) > 1, fairShare(sibling) > 0 and ratio(reclaimer) * m >= ratio(sibling): the multiplier
+    scales the RECLAIMER's ratio ([saturation_ok], cross-multiplied; m = mn / md). *)
+
+(** 6a. The test is monotone in the multiplier: what it admits at m' it admits at every m <= m' (a larger multiplier
+    only refuses more) ... *)
+Theorem C15_saturation_test_monotone_in_multiplier :
+  forall mn md mn' md' sz ar Fr ae Fe,
+    0 < md -> 0 < md' -> mn * md' <= mn' * md -> 0 <= Fr ->
+    saturation_ok mn' md' sz ar Fr ae Fe = true -> saturation_ok mn md sz ar Fr ae Fe = true.
+Proof. exact saturation_ok_mono. Qed.
+Print Assumptions C15_saturation_test_monotone_in_multiplier.
+
+(** 6b. ... so does the whole reclaim gate of the class, and every run: for ALL multipliers m >= 1 the gate is at least
+    as strict as at m = 1 (gate_m admits => gate_1 admits), and a stretch of decisions admissible at m is admissible at
+    m = 1 with the same result. *)
+Theorem C15_gate_at_least_as_strict_as_at_multiplier_one :
+  forall m p s j v,
+    wf_paramsb p = true -> wf_multb m = true ->
+    reclaim_ok m p s j v = true -> reclaim_ok (1, 1) p s j v = true.
+Proof. exact reclaim_ok_at_least_as_strict_as_one. Qed.
+Print Assumptions C15_gate_at_least_as_strict_as_at_multiplier_one.
+Theorem C15_gate_monotone_in_multiplier :
+  forall m m' p s j v,
+    wf_paramsb p = true -> 0 < snd m -> 0 < snd m' -> mult_le m m' ->
+    reclaim_ok m' p s j v = true -> reclaim_ok m p s j v = true.
+Proof. exact reclaim_ok_mono. Qed.
+Print Assumptions C15_gate_monotone_in_multiplier.
+Theorem C15_runs_monotone_in_multiplier :
+  forall m m' p ds s s',
+    wf_paramsb p = true -> 0 < snd m -> 0 < snd m' -> mult_le m m' ->
+    run m' p s ds = Some s' -> run m p s ds = Some s'.
+Proof. exact run_mono. Qed.
+Print Assumptions C15_runs_monotone_in_multiplier.
+
+(** 6c. LIFTING: the closed system at m >= 1 is a sub-system of the one at m = 1 (same states, every cycle a cycle, every
+    evicting cycle an evicting cycle), so "no lasso" and "finitely many evicting cycles" at m = 1 carry over to every
+    m >= 1 - for the class (1d, 1e), for the sized gate of section 5 (5d), and for "allocate, then at most one simulated
+    reclaim" of section 4 under ANY order function and ANY simulated job set.  (1d and 5d are proved for all m >= 1
+    directly; the lifting says that nothing about a multiplier above 1 has to be proved twice.) *)
+Theorem C15_no_lasso_lifts_from_multiplier_one :
+  forall m p, wf_paramsb p = true -> wf_multb m = true ->
+  (no_lasso (class_system (1, 1) p) -> no_lasso (class_system m p))
+  /\ (finitely_many_evictions (class_system (1, 1) p) -> finitely_many_evictions (class_system m p)).
+Proof. exact class_lift. Qed.
+Print Assumptions C15_no_lasso_lifts_from_multiplier_one.
+Theorem C15_sized_no_lasso_lifts_from_multiplier_one :
+  forall g m p, wf_paramsb p = true -> wf_multb m = true ->
+  (no_lasso (sized_system g (1, 1) p) -> no_lasso (sized_system g m p))
+  /\ (finitely_many_evictions (sized_system g (1, 1) p) -> finitely_many_evictions (sized_system g m p)).
+Proof. exact sized_lift. Qed.
+Print Assumptions C15_sized_no_lasso_lifts_from_multiplier_one.
+Theorem C15_ordered_no_lasso_lifts_from_multiplier_one :
+  forall m o js p, wf_paramsb p = true -> wf_multb m = true ->
+  (no_lasso (ordered_system (1, 1) o js p) -> no_lasso (ordered_system m o js p))
+  /\ (finitely_many_evictions (ordered_system (1, 1) o js p) -> finitely_many_evictions (ordered_system m o js p)).
+Proof. exact ordered_lift. Qed.
+Print Assumptions C15_ordered_no_lasso_lifts_from_multiplier_one.
+
+(** 6d. The multiplier on the SIBLING's side (seeded change C15-4: ratio(reclaimer) >= ratio(sibling) * m refuses) is the
+    documented test with the INVERSE multiplier: the same function at m = 1 - no run with the default setting tells the
+    two apart - and for a valid m > 1 the test at 1/m, the range proportion.New rejects. *)
+Theorem C15_multiplier_on_sibling_side_is_inverse_multiplier :
+  (forall mn md sz ar Fr ae Fe, saturation_ok_sibling mn md sz ar Fr ae Fe = saturation_ok md mn sz ar Fr ae Fe)
+  /\ (forall m p s j v, reclaim_ok_sibling m p s j v = reclaim_ok (snd m, fst m) p s j v)
+  /\ (forall p s j v, reclaim_ok_sibling (1, 1) p s j v = reclaim_ok (1, 1) p s j v).
+Proof. exact (conj sibling_is_inverse (conj reclaim_ok_sibling_is_inverse sibling_same_at_one)). Qed.
+Print Assumptions C15_multiplier_on_sibling_side_is_inverse_multiplier.
+
+(** 6e. On the numbers of seeded/C15-4/README.md (GPUs; dept-a holds 2 of its fair share 3, dept-b 5 of its fair share 4;
+    a-new-train, 2 GPUs, would take the 2 GPUs of b-small-train: dept-a 4/3, dept-b 3/4) the documented test refuses at
+    m = 1 and at m = 2 - at EVERY m >= 1 - while the test with the multiplier on the sibling's side, identical at
+    m = 1, ADMITS the reclaim at m = 2 (and 3, 5; 6/5 and 3/2 still refuse: 4/3 >= m * 3/4 iff m <= 16/9). *)
+Theorem C15_multiplier_on_sibling_side_refuted :
+  saturation_ok 1 1 rm_sz rm_ar rm_Fr rm_ae rm_Fe = false
+  /\ saturation_ok 2 1 rm_sz rm_ar rm_Fr rm_ae rm_Fe = false
+  /\ saturation_ok_sibling 1 1 rm_sz rm_ar rm_Fr rm_ae rm_Fe = false
+  /\ saturation_ok_sibling 2 1 rm_sz rm_ar rm_Fr rm_ae rm_Fe = true
+  /\ forallb (fun m => negb (saturation_ok (fst m) (snd m) rm_sz rm_ar rm_Fr rm_ae rm_Fe))
+             [(1, 1); (6, 5); (3, 2); (2, 1); (3, 1); (5, 1)] = true
+  /\ map (fun m => saturation_ok_sibling (fst m) (snd m) rm_sz rm_ar rm_Fr rm_ae rm_Fe)
+         [(1, 1); (6, 5); (3, 2); (2, 1); (3, 1); (5, 1)] = [false; false; false; true; true; true].
+Proof. exact readme_numbers. Qed.
+Print Assumptions C15_multiplier_on_sibling_side_refuted.
+Theorem C15_readme_reclaim_refused_for_every_valid_multiplier :
+  forall mn md, 0 < md -> md <= mn -> saturation_ok mn md rm_sz rm_ar rm_Fr rm_ae rm_Fe = false.
+Proof. exact readme_refused_for_every_valid_multiplier. Qed.
+Print Assumptions C15_readme_reclaim_refused_for_every_valid_multiplier.
+
+(** 6f. ... and the class itself has a lasso under it for a VALID multiplier: the two departments of 2. take a slot
+    from each other for ever at m = 5/2 on the sibling's side; the documented gate refuses both evictions at that m and
+    the class has no lasso.  Full statement: *)
+Definition C15_no_lasso_multiplier_on_sibling_side : Prop := no_lasso_multiplier_on_sibling_side.
+Theorem C15_multiplier_on_sibling_side_lasso :
+  exists m p s0 s1 j v,
+    wf_paramsb p = true /\ wf_multb m = true /\ within_cap p s0
+    /\ run_sibling m p s0 [DReclaim j v] = Some s1 /\ run_sibling m p s1 [DReclaim v j] = Some s0
+    /\ ~ no_lasso (sibling_system m p)
+    /\ run m p s0 [DReclaim j v] = None /\ run m p s1 [DReclaim v j] = None
+    /\ no_lasso (class_system m p).
+Proof. exact sibling_lasso. Qed.
+Print Assumptions C15_multiplier_on_sibling_side_lasso.
+Theorem C15_no_lasso_multiplier_on_sibling_side_refuted : ~ C15_no_lasso_multiplier_on_sibling_side.
+Proof. exact sibling_side_refuted. Qed.
+Print Assumptions C15_no_lasso_multiplier_on_sibling_side_refuted.
+
+(** 6g. The world of seeded/C15-4/README.md in the general model (queue tree of two departments with over-subscribing
+    project quotas, jobs of 1 / 2 / 3 GPUs, the reclaim gate of C07 with both strategies and the saturation rule):
+    a-new-train's reclaim of b-small-train is refused for the multipliers 1, 6/5, 3/2, 2, 3, 5 and admitted at 1/2 and
+    1/3 - what 2 and 3 amount to on the sibling's side; the saturation rule is the only part of the gate in the way. *)
+Theorem C15_readme_world_general_model :
+  General.gwfb ReadmeWorld.world = true
+  /\ map (fun m => General.gapply m ReadmeWorld.world ReadmeWorld.s0 ReadmeWorld.reclaim_b_small)
+         [1; 6 # 5; 3 # 2; 2; 3; 5]%Q = [None; None; None; None; None; None]
+  /\ General.gapply (1 # 2)%Q ReadmeWorld.world ReadmeWorld.s0 ReadmeWorld.reclaim_b_small = Some [5; 1; 2; 4]%positive
+  /\ General.gapply (1 # 3)%Q ReadmeWorld.world ReadmeWorld.s0 ReadmeWorld.reclaim_b_small = Some [5; 1; 2; 4]%positive
+  /\ General.gapply (2 # 3)%Q ReadmeWorld.world ReadmeWorld.s0 ReadmeWorld.reclaim_b_small = None.
+Proof. exact ReadmeWorld.facts. Qed.
+Print Assumptions C15_readme_world_general_model.
 
 (** 3c. The general statement: gangs (atomic jobs of any size), cpu / memory / gpu, queue
     forests of any depth, the full reclaim gate of the proportion plugin (model of C07),
